@@ -12,13 +12,22 @@ A_ExecSC_ok == ExecSC_ok /\ UNCHANGED begun
 A_ExecSC_fail == ExecSC_fail /\ UNCHANGED begun
 A_ExecSC_internal == ExecSC_internal /\ UNCHANGED begun
 A_QueueFee == QueueFee /\ UNCHANGED begun
-A_ApplyTransfer == ApplyTransfer /\ UNCHANGED begun
+\* the head of the queue is a credit that the destination has no room for (balance + amount > MaxCoin).
+\* With MaxCoin = MaxSupply no reachable state has one; the *_nearmax configs put MaxCoin BELOW the supply,
+\* which is how the model reaches balances next to the largest representable one (in the code: next to
+\* 2^64-1) without leaving conservation.  The split is only for the coverage guard: both halves are
+\* Ledger!ApplyTransfer.
+OverflowHead == /\ queue # <<>> /\ Head(queue).amt > 0 /\ Head(queue).from # Head(queue).to
+                /\ obal[Head(queue).from] >= Head(queue).amt
+                /\ obal[Head(queue).to] + Head(queue).amt > MaxCoin
+A_ApplyTransfer == ApplyTransfer /\ ~OverflowHead /\ UNCHANGED begun
+A_ApplyOverflow == ApplyTransfer /\ OverflowHead /\ UNCHANGED begun
 A_ApplySigned == ApplySigned /\ UNCHANGED begun
 A_IncNonce == IncNonce /\ UNCHANGED begun
 A_Commit == Commit /\ UNCHANGED begun
 A_Reject == Reject /\ UNCHANGED begun
 MCNext == A_Begin \/ A_ExecSend \/ A_ExecData \/ A_ExecSC_ok \/ A_ExecSC_fail \/ A_ExecSC_internal
-          \/ A_QueueFee \/ A_ApplyTransfer \/ A_ApplySigned \/ A_IncNonce \/ A_Commit \/ A_Reject
+          \/ A_QueueFee \/ A_ApplyTransfer \/ A_ApplyOverflow \/ A_ApplySigned \/ A_IncNonce \/ A_Commit \/ A_Reject
 MCSpec == MCInit /\ [][MCNext]_<<vars, begun>>
 MCView == <<bal, nonce, kv, phase, cur, queue, signed, obal, ononce, okv, oev, begun>>
 =============================================================================
